@@ -60,7 +60,8 @@ def table_cases(draw, tier):
     msl = draw(st.integers(1, 4))
     n = draw(st.integers(2 * msl, 16))
     fam = draw(st.sampled_from(["pair", "closure", "l2int"]))
-    case = {"n": n, "msl": msl, "family": fam, "k": draw(st.sampled_from([0, 1, 2, 3, 5, 8]))}
+    case = {"n": n, "msl": msl, "family": fam, "k": draw(st.sampled_from([1, 2, 0, 3, 5, 8, 0.5, 1.3, 2.7])),
+            "int_output": fam != "l2int" and draw(st.sampled_from([False, False, True]))}
     if fam == "pair":
         m = draw(st.integers(0, 2 * n))
         case["weights"] = [
@@ -68,7 +69,8 @@ def table_cases(draw, tier):
             for _ in range(m)
         ]
     elif fam == "closure":
-        flat = draw(st.lists(st.integers(0, 5), min_size=(n + 1) * (n + 1), max_size=(n + 1) * (n + 1)))
+        # negative entries are fine: the closure is super-additive for any raw table
+        flat = draw(st.lists(st.integers(-3, 5), min_size=(n + 1) * (n + 1), max_size=(n + 1) * (n + 1)))
         case["raw"] = [[flat[s * (n + 1) + e] for e in range(n + 1)] for s in range(n + 1)]
     else:
         case["x"] = draw(st.lists(st.integers(-4, 4), min_size=n, max_size=n))
@@ -118,7 +120,8 @@ def check_table(case):
     tag = "c02"
     U.EVAL_COUNTS.pop(tag, None)
     with sut("PELT(TableCost).fit/predict"):
-        det = PELT(U.TableCost(T.tolist(), 1, tag), scale_arg, msl).fit(X)
+        table_arg = T.astype(np.int64).tolist() if case.get("int_output") else T.tolist()
+        det = PELT(U.TableCost(table_arg, 1, tag, None, bool(case.get("int_output"))), scale_arg, msl).fit(X)
         cpts = det.predict(X)["ilocs"].tolist()
         evals_predict = U.EVAL_COUNTS.get(tag, 0)
         scores = det.transform_scores(X).to_numpy()
@@ -134,8 +137,10 @@ def check_table(case):
         classes.append("has_changepoint")
     if pruned:
         classes.append("pruning_observed")
-    if penalty == k:
+    if penalty == k and float(k).is_integer():
         classes.append("exact_integer_penalty")
+    if case.get("int_output"):
+        classes.append("integer_typed_cost_output")
     if n == 2 * msl:
         classes.append("n=2msl")
     if msl >= 2:
@@ -171,7 +176,10 @@ def builtin_cases(draw, tier):
     exact = draw(st.booleans()) if cost != "GaussianCovCost" else draw(st.sampled_from([False, False, True]))
     X, meta = draw(D.structured_matrix(n, p, exact=exact, boundary_positions=(msl, n - msl),
                                        max_spikes=2, max_bumps=2))
-    scale = draw(st.one_of(st.sampled_from([0.0, 0.05, 0.3, 1.0, 2.0]), st.floats(0.0, 3.0)))
+    scale = draw(st.one_of(st.sampled_from([0.3, 1.0, 0.0, 0.05, 2.0]), st.floats(0.0, 3.0)))
+    unit = draw(st.sampled_from([1.0, 1.0, 0.1, 0.01, 10.0]))  # Gaussian costs are negative for small units
+    if unit != 1.0:
+        X = [[v * unit for v in row] for row in X]
     return {"cost": cost, "msl": msl, "X": X, "penalty_scale": scale}
 
 
@@ -271,7 +279,7 @@ FACETS = [
         check=check_table,
         strategy=table_cases,
         rule=("user-defined integer TableCost (pair-interaction / super-additive closure / integer-data L2), "
-              "n in [2msl,16], msl 1..4, integer penalties k in {0,1,2,3,5,8} through penalty_scale; "
+              "n in [2msl,16], msl 1..4, penalties k in {0,1,2,3,5,8,0.5,1.3,2.7} through penalty_scale, float- or integer-typed cost output; "
               "non-trivial = optimum has >=1 changepoint AND pruning observed via evaluation counts"),
         n_quick=1600, n_thorough=30000, shards_quick=8, shards_thorough=16,
     ),
